@@ -16,7 +16,7 @@ from ..report import RuleCtx
 from ..consteval import fold_expr, fold_const, Regex, EnumMember, Opaque
 from .. import tables, rx
 from ..tables import Atom
-from .c01_sym import SymPath, sym_paths, is_call, show, subterms
+from .c01_sym import SymPath, sym_paths, is_call, show, subterms, private_helpers
 from .c01_parser import MPARSER, mro_cached, _summaries, semantic, ctor_binding
 from . import c01_eval
 from .c01_eval import IB, EvalFn, views, abstract, fmt, EV, NONE, dispatch_arms, arm_method, rename
@@ -279,7 +279,7 @@ def impl_paths(impl: Impl, handlers: bool = True) -> T.List[T.Tuple[str, T.Any, 
         sps = sym_paths(fn, body=body, handlers=handlers)           # type: ignore[arg-type]
     else:
         ps = [a.arg for a in fn.args.args]
-        sps = sym_paths(fn, handlers=handlers)
+        sps = sym_paths(fn, handlers=handlers, helpers=private_helpers(impl.mod.cls(impl.owner), stop={'_op_div', '_throw_comp_exception'}))
     if len(ps) != 2:
         raise Undecided(f'{impl.owner}: implementation of {impl.op} does not take (holder, other)')
     held_chain = f'{ps[0]}.range' if impl.owner == 'RangeHolder' else f'{ps[0]}.held_object'
